@@ -10,6 +10,11 @@
   C08.5  AlignmentResults.resolve consumes every group member exactly once (separate xor joined)
   C08.6  a joined record is built from the first segments of the two parts through conflict resolution only, earlier
          part on the left, identity fields from the first part
+  C08.7  the joined records are made from exactly the reported single-pass records: the rows handed to resolve are
+         filtered(first pass) ++ filtered(second pass), the very terms written to _1 / _2 in mode 'all' (same term in
+         'joined'; in 'best' the second operand is the reported second-pass list)
+  C08.8  saveAdditionalOutput writes exactly the rows it is given (plain AlignmentResults constructor, no further
+         per-query filtering: the _1 file of mode 'joined' legitimately holds two records of one query)
 Declined: byte equality of files across runs; "union valid => joined == union".
 """
 from __future__ import annotations
@@ -33,6 +38,8 @@ def run(ck):
     ck.clause("C08.4", "join eligibility predicate and its wiring to --maxDifference")
     ck.clause("C08.5", "resolve: every row of a group is consumed exactly once")
     ck.clause("C08.6", "joined row = conflict resolution of the two parts' first segments, earlier part left")
+    ck.clause("C08.7", "resolve receives exactly the reported first-pass ++ second-pass records")
+    ck.clause("C08.8", "saveAdditionalOutput writes exactly the rows it is given (no per-query filter)")
     modes, default, mnode = declared_modes(ck)
     execute = multipass_execute(ck)
     ck.floor("C08.1 declared modes", len(modes), 4)
@@ -129,6 +136,81 @@ def run(ck):
 
     # ------------------------------------------------------------------ C08.6
     _joined_row(ck)
+
+    # ------------------------------------------------------------------ C08.7
+    _resolve_input(ck, behaviours, execute, file_of)
+
+    # ------------------------------------------------------------------ C08.8
+    _save_writes_its_argument(ck)
+
+
+def _resolve_input(ck, behaviours, execute, file_of):
+    p = ck.ctx.p
+    resolve = p.find_method("AlignmentResults", "resolve")
+    first = file_of("all", 1)
+    second = file_of("all", 2)
+    if len(first) != 1 or len(second) != 1:
+        return    # already reported by C08.2
+    first, second = first[0], second[0]
+    seen = 0
+    for m, mb in behaviours.items():
+        done = False
+        for pa in {id(pa): pa for _, pa in mb.returned}.values():
+            if done:
+                break
+            for t, facts, node, kind in path_terms(pa):
+                apps = [x for x in T.subterms(t) if x[0] == "app" and x[1] == resolve.qualname]
+                if not apps:
+                    continue
+                rows = dict(apps[0][3]).get(resolve.call_params()[0].name)
+                w = where(execute, node)
+                seen += 1
+                done = True
+                parts = list(rows[1]) if rows is not None and rows[0] == "concat" else None
+                if parts is None or len(parts) != 2:
+                    ck.violation("C08.7", f"execute[{m}]->resolve:rows", w, "resolve does not receive the concatenation of the "
+                                 "first-pass and the second-pass records", found=T.show(rows)[:300] if rows else "None",
+                                 required="filtered(first pass) + filtered(second pass)")
+                    break
+                ck.judge(second in parts, "C08.7", f"execute[{m}]->resolve:second-pass", w,
+                         "the second-pass records offered for joining are the reported ones (one per fragment-bearing query, "
+                         "the list written as the second-pass file)",
+                         found="; ".join(T.show(x)[:200] for x in parts), required=T.show(second)[:200])
+                rest = [x for x in parts if x != second] or parts[:1]
+                if m in ("all", "joined"):
+                    ck.judge(rest[0] == first, "C08.7", f"execute[{m}]->resolve:first-pass", w,
+                             "the first-pass records offered for joining are the reported ones (the list written as the "
+                             "first-pass file)", found=T.show(rest[0])[:240], required=T.show(first)[:240])
+                else:
+                    ck.judge(rest[0][0] == "app" and rest[0][1] == first[1], "C08.7", f"execute[{m}]->resolve:first-pass", w,
+                             "the other operand passed the one-per-query filter", found=T.show(rest[0])[:240],
+                             required=first[1].split(":")[-1] + "(...)")
+                break
+    ck.floor("C08.7 modes in which resolve's input was examined", seen, 3)
+
+
+def _save_writes_its_argument(ck):
+    p = ck.ctx.p
+    fn = p.find_method("_MultiPassWorkflowCoordinator", "saveAdditionalOutput")
+    rows_param = V(fn.call_params()[0].name)
+    results = p.find_class("AlignmentResults")
+    n = 0
+    for pa in explore(ck, fn):
+        for e in pa.events:
+            if e.kind == "call" and e.term[0] == "app" and e.term[1].endswith("XmapReader.writeAlignments"):
+                n += 1
+                a = dict(e.term[3])
+                res = a.get("alignmentResults")
+                w = where(fn, e.node)
+                ok = res is not None and res[0] == "new" and res[1] == results.qualname
+                got_rows = dict(res[2] if res[0] == "new" else res[3]).get("rows") if res is not None and res[0] in ("new", "app") else None
+                ck.judge(ok and got_rows == rows_param, "C08.8", "saveAdditionalOutput:rows", w,
+                         "the additional file holds exactly the rows handed over: AlignmentResults(<files>, rows) built with the "
+                         "plain constructor (create() would drop the second record of a query from the un-joined file)",
+                         found=T.show(res)[:240] if res else "None",
+                         required=f"AlignmentResults(..., rows={rows_param[1]})")
+        break
+    ck.floor("C08.8 writeAlignments call in saveAdditionalOutput", n, 1)
 
 
 def _file_naming(ck):
@@ -269,7 +351,7 @@ def _aligned_rest(ck, behaviours, execute):
                      found=("second-pass" if has_second else "first-pass") + " rows", required="second-pass" if want else "first-pass")
 
 
-def _eligibility(ck, behaviours, execute):
+def _eligibility(ck, behaviours, execute, rule="C08.4", wiring=True):
     ctx = ck.ctx
     p = ctx.p
     fn = p.find_method("AlignmentResultRow", "check_overlap")
@@ -306,26 +388,28 @@ def _eligibility(ck, behaviours, execute):
         strict_asserted = f.get(g_strict) is True
         pg, pol = T.positive(g_incl)
         g_ok = (not strict_asserted) and (pg in f and f[pg] == pol)
-        ck.judge(o_ok, "C08.4", "check_overlap:orientation", w, "join requires equal orientation",
+        ck.judge(o_ok, rule, "check_overlap:orientation", w, "join requires equal orientation",
                  found=pa.describe()[:300], required="self.orientation == other.orientation on the path to True")
-        ck.judge(r_ok, "C08.4", "check_overlap:reference", w, "join requires the same reference",
+        ck.judge(r_ok, rule, "check_overlap:reference", w, "join requires the same reference",
                  found=pa.describe()[:300], required="self.referenceId == other.referenceId on the path to True")
         if g_ok:
-            ck.ok("C08.4", "check_overlap:gap", w, "join requires reference gap <= maxDifference (inclusive)", T.show(g_incl)[:200])
+            ck.ok(rule, "check_overlap:gap", w, "join requires reference gap <= maxDifference (inclusive)", T.show(g_incl)[:200])
         else:
             strict = strict_asserted
             gapfacts = [k for k in f if T.contains(k, md)]
             if strict:
-                ck.violation("C08.4", "check_overlap:gap", w, "gap test is strict: a gap of exactly maxDifference is not joined",
+                ck.violation(rule, "check_overlap:gap", w, "gap test is strict: a gap of exactly maxDifference is not joined",
                              found=T.show(g_strict)[:200], required=T.show(g_incl)[:200])
             elif gapfacts:
-                ck.violation("C08.4", "check_overlap:gap", w, "gap test against maxDifference differs from "
+                ck.violation(rule, "check_overlap:gap", w, "gap test against maxDifference differs from "
                              "|max(starts) - min(ends)| <= maxDifference", found="; ".join(T.show(k)[:160] for k in gapfacts),
                              required=T.show(g_incl)[:200])
             else:
-                ck.violation("C08.4", "check_overlap:gap", w, "rows are joined without any test against maxDifference",
+                ck.violation(rule, "check_overlap:gap", w, "rows are joined without any test against maxDifference",
                              found=pa.describe()[:300], required=T.show(g_incl)[:200])
-    ck.floor("C08.4 accepting paths of check_overlap", n_true, 1)
+    ck.floor(f"{rule} accepting paths of check_overlap", n_true, 1)
+    if not wiring:
+        return
     # wiring: execute -> resolve(rows, self.args.maxDifference) -> check_overlap(group[1], maxDifference)
     resolve = p.find_method("AlignmentResults", "resolve")
     n_w = 0
@@ -336,19 +420,19 @@ def _eligibility(ck, behaviours, execute):
                     if x[0] == "app" and x[1] == resolve.qualname:
                         n_w += 1
                         a = dict(x[3])
-                        ck.judge(a.get("maxDifference") == self_attr("args", "maxDifference"), "C08.4",
+                        ck.judge(a.get("maxDifference") == self_attr("args", "maxDifference"), rule,
                                  f"execute[{m}]->resolve:maxDifference", where(execute, node),
                                  "the --maxDifference value is what resolve receives",
                                  found=T.show(a.get("maxDifference", C(None))), required="self.args.maxDifference")
                         break
-    ck.floor("C08.4 resolve call sites seen in execute", n_w, 1)
+    ck.floor(f"{rule} resolve call sites seen in execute", n_w, 1)
     for site in ctx.cg.sites_calling(fn):
         if site.caller.module.is_test:
             continue
         from ..callgraph import bind_args
         b, _ = bind_args(fn.call_params(), site.node)
         a = b.get(md[1])
-        ck.judge(isinstance(a, ast.Name) and a.id == "maxDifference", "C08.4", f"{short(site.caller)}->check_overlap:maxDifference",
+        ck.judge(isinstance(a, ast.Name) and a.id == "maxDifference", rule, f"{short(site.caller)}->check_overlap:maxDifference",
                  site.where, "resolve passes its maxDifference on to the eligibility test",
                  found=ast.unparse(a) if a is not None else "None", required="maxDifference")
 
